@@ -122,17 +122,27 @@ def ensure(repo=REPO, variant="lib"):
     os.makedirs(CACHE, exist_ok=True)
     key = repo_hash(repo) + "-" + variant
     d = os.path.join(CACHE, key)
-    lock = open(os.path.join(CACHE, ".lock"), "w")
+    lock = open(os.path.join(CACHE, ".lock-" + key), "w")
     fcntl.flock(lock, fcntl.LOCK_EX)
     try:
         if not os.path.exists(os.path.join(d, "DONE")):
             shutil.rmtree(d, ignore_errors=True)
-            # prune older exports (disk is limited)
-            olds = sorted(
-                (p for p in glob.glob(os.path.join(CACHE, "*")) if os.path.isdir(p)), key=os.path.getmtime
-            )
-            for old in olds[:-12]:
-                shutil.rmtree(old, ignore_errors=True)
+            # prune older exports (disk is limited); a short global lock keeps two pruners apart
+            g = open(os.path.join(CACHE, ".lock"), "w")
+            fcntl.flock(g, fcntl.LOCK_EX)
+            try:
+                olds = sorted((p for p in glob.glob(os.path.join(CACHE, "*")) if os.path.isdir(p) and not p.endswith(".tmp") and os.path.exists(os.path.join(p, "DONE"))), key=os.path.getmtime)
+                for old in olds[:-16]:
+                    shutil.rmtree(old, ignore_errors=True)
+                for lf in glob.glob(os.path.join(CACHE, ".lock-*")):
+                    if time.time() - os.path.getmtime(lf) > 3600 and not lf.endswith(key):
+                        try:
+                            os.unlink(lf)
+                        except OSError:
+                            pass
+            finally:
+                fcntl.flock(g, fcntl.LOCK_UN)
+                g.close()
             tmp = d + ".tmp"
             shutil.rmtree(tmp, ignore_errors=True)
             export(repo, tmp, all_targets=(variant == "all"), release=(variant == "release"))
